@@ -202,11 +202,14 @@ package cache
 //@   at call (os.FileInfo).Size#1: bind gSize1 = r
 //@   at call os.OpenFile#1: requires !(gStatErr == nil && gSize1 == size && gOpenRErr == nil && out == out2)
 //@   ensures result != nil && gOpenErr == nil ==> gCleanup[gFile] || failBudget < old(failBudget)
+//@   ensures result == nil ==> fsExists[name]
 
 // put: the index entry is written only after the output file is in place, with the
 // output id and size computed by this call; a failed copy returns its error.
 //@ func (*Cache).put
 //@   requires c != nil
+//@   nocall os.Remove
+//@   nocall (*os.File).Truncate
 //@   at call io.Copy#1: requires gSeekPos[src] == 0
 //@   at call (*cache.Cache).copyFile#1: bind gCopyErr = result
 //@   at call (*cache.Cache).putIndexEntry#1: requires gCopyErr == nil && out == my_out && size == my_size && id == my_id
